@@ -43,6 +43,8 @@ async fn main() {
         ("forged signature claiming Alice, seq 100", op(&mallory, alice.verifying_key(), 100, Some(Hash::digest(b"x")), b"forged")),
         ("Alice's own operation with corrupted body, seq 6", { let mut o = op(&alice, alice.verifying_key(), 6, Some(chain[5].hash), b"real"); o.body = Some(Body::new(b"fake")); o }),
         ("Alice's own operation with inconsistent header (backlink at seq 0)", op(&alice, alice.verifying_key(), 0, Some(Hash::digest(b"x")), b"bad")),
+        ("stored operation of Alice re-sent with its id, key and signature kept but seq_num rewritten to 100 (signature no longer matches)", { let mut o = chain[2].clone(); o.header.seq_num = 100; o }),
+        ("stored operation of Alice re-sent with its id kept but another body and payload hash", { let mut o = chain[3].clone(); let b = Body::new(b"other"); o.header.payload_hash = Some(b.hash()); o.header.payload_size = b.size(); o.body = Some(b); o }),
     ];
     for (label, attack) in &attacks {
         let store = SqliteStore::temporary().await;
